@@ -2,8 +2,10 @@
    Props/C11.v is weakened or renamed.  Created by tools/mkpinned.py. *)
 From Coq Require Import List Permutation Sorted.
 From QV Require Import Rt.Prelude Rt.Amount Macro.Defs Macro.Casing Macro.Impls Macro.Analyze Gen.Prefixes Gen.Catalogue
-  Amount.F64 Proofs.Instances Proofs.Sort Proofs.C09 Proofs.DerivedCat Proofs.C11.
+  Amount.F64 Proofs.Instances Proofs.Sort Proofs.C09 Proofs.DerivedCat Proofs.C11 Proofs.SortPerm.
+From Flocq Require IEEE754.Binary.
 From QV Require Import Props.C11.
+Import ListNotations.
 Check C11_stable_sort : forall (T : Type) (gt : T -> T -> bool) (P : T -> Prop),
   (forall a b, P a -> P b -> gt a b = true -> gt b a = false) ->
   (forall a b c, P a -> P b -> P c -> gt a b = false -> gt b c = false -> gt a c = false) ->
@@ -18,6 +20,26 @@ Check C11_units_with_reference_unit : forall a r us, an_units a = sort_stable ke
   Permutation (an_units a) (r :: us) /\ Sorted (le_rel key_gt) (an_units a) /\
   (forall k, key_finite k -> List.filter (same_key key_gt k) (an_units a) = List.filter (same_key key_gt k) (r :: us)) /\
   exists rest, List.filter (same_key key_gt r) (an_units a) = r :: rest.
+Check C11_attribute_order_general : forall d1 d2 a1,
+  Permutation (rd_attrs d1) (rd_attrs d2) -> analyze d1 = Some a1 ->
+  (an_ref a1 <> None -> Forall key_finite (an_units a1)) ->
+  exists a2, analyze d2 = Some a2 /\ an_ref a2 = an_ref a1 /\
+    Permutation (an_units a1) (an_units a2) /\
+    match an_ref a1 with
+    | None => Forall2 (fun a b => same_key name_gt a b = true) (an_units a1) (an_units a2)
+    | Some _ => Forall2 (fun a b => same_key key_gt a b = true) (an_units a1) (an_units a2)
+    end.
+Check C11_attribute_order_names : forall d1 d2 a1,
+  Permutation (rd_attrs d1) (rd_attrs d2) ->
+  analyze d1 = Some a1 -> an_ref a1 = None ->
+  NoDup (map (fun u => name_of_ident (ud_ident u)) (an_units a1)) ->
+  analyze d2 = Some a1.
+Check C11_attribute_order_scales : forall d1 d2 a1,
+  Permutation (rd_attrs d1) (rd_attrs d2) ->
+  analyze d1 = Some a1 -> an_ref a1 <> None ->
+  Forall key_finite (an_units a1) ->
+  NoDup (map (fun u => Binary.B2R 53 1024 (scale_key u)) (an_units a1)) ->
+  analyze d2 = Some a1.
 Check C11_path_selection : forall a,
   expected_path a = match an_units a with [_] => PSingle | _ => match an_ref a with Some _ => PRef | None => PNoRef end end.
 Check C11_model_is_generator :
